@@ -372,6 +372,7 @@ func (w *vhCluster) quiescent(specs []*vhSpec, tag string) []net.IP {
 // 2 re-type to ClusterIP, 3 change of request, 4 sharing-key / port change, 5 pool change.
 func VerifControllerWorld(layout, nsvc, eventKind, failures int) {
 	lite := layout >= 10
+	stale := layout >= 20
 	layout %= 10
 	ps := vhCtlLayout(layout)
 	api := &vhAPI{objs: map[string]*v1.Service{}, perm: vr.Choose(6)}
@@ -382,7 +383,11 @@ func VerifControllerWorld(layout, nsvc, eventKind, failures int) {
 		api.names = append(api.names, s.name)
 		api.objs[s.name] = vhBuildService(s)
 		if s.recIP != nil {
-			api.objs[s.name].Annotations[AnnotationIPAllocateFromPool] = vhPoolOf(ps, s.recIP)
+			// the recorded-pool annotation may be missing (older release, stripped by a tool); it matters
+			// only together with a pool request, so it is varied only then
+			if !(s.reqPool != "" && vr.Bool()) {
+				api.objs[s.name].Annotations[AnnotationIPAllocateFromPool] = vhPoolOf(ps, s.recIP)
+			}
 		}
 	}
 	// the recorded world is valid: recorded addresses satisfy exclusivity, requests and pools
@@ -394,6 +399,15 @@ func VerifControllerWorld(layout, nsvc, eventKind, failures int) {
 		if s.recIP != nil {
 			vr.Assume(vhAddrOK(ps, s, s.recIP, specs, rec, i))
 		}
+	}
+	// stale world (layout 20..): while no controller was running, the user changed the requested address
+	// of one Service; its recorded address may no longer be what it asks for
+	staleIdx := -1
+	if stale {
+		staleIdx = vr.Choose(nsvc)
+		es := specs[staleIdx]
+		es.reqIP = vhSymAddr()
+		vhSetReqIP(api.objs[es.name], es)
 	}
 	// a new controller instance starts: pools arrive, then the first full sync; early service events
 	// (before the first sync) must be ignored
@@ -421,8 +435,14 @@ func VerifControllerWorld(layout, nsvc, eventKind, failures int) {
 	held := w.quiescent(specs, "after restart")
 	// C06: recorded addresses are kept exactly; nobody took an address recorded for somebody else
 	for i, s := range specs {
-		if s.recIP != nil {
+		if s.recIP != nil && i != staleIdx {
+			if staleIdx >= 0 && specs[staleIdx].reqIP.Equal(s.recIP) && specs[staleIdx].recIP != nil {
+				// the Service whose request changed while no controller ran now asks for exactly this
+				// Service's recorded address (and holds another one)
+				vr.Finding("F16-restart-request-changed-to-held-address")
+			}
 			vr.Assert(held[i] != nil && held[i].Equal(s.recIP), "a Service lost or changed its recorded, still admissible address across a restart")
+			vr.Finding("")
 		}
 	}
 	vr.Reach("restart settled")
@@ -505,7 +525,11 @@ func VerifControllerCrash(layout, nsvc, failures int) {
 		api.names = append(api.names, s.name)
 		api.objs[s.name] = vhBuildService(s)
 		if s.recIP != nil {
-			api.objs[s.name].Annotations[AnnotationIPAllocateFromPool] = vhPoolOf(ps, s.recIP)
+			// the recorded-pool annotation may be missing (older release, stripped by a tool); it matters
+			// only together with a pool request, so it is varied only then
+			if !(s.reqPool != "" && vr.Bool()) {
+				api.objs[s.name].Annotations[AnnotationIPAllocateFromPool] = vhPoolOf(ps, s.recIP)
+			}
 		}
 	}
 	rec := make([]net.IP, nsvc)
